@@ -220,10 +220,56 @@ def h_seq(ctx, plan):
   ctx.witness('done')
 
 
+def h_full_table(ctx, cap):
+  """a switch whose flow table holds `cap` entries: flow_mods that need no reply produce none - also an ADD that *replaces* an identical entry
+  while the table is full (it needs no new slot) -, an ADD of one entry too many is answered with FLOW_MOD_FAILED / ALL_TABLES_FULL, and
+  barrier / statistics replies in between show the effects of everything before them"""
+  env.get_core()
+  of = ctx.pox('pox.openflow.libopenflow_01'); swm = ctx.pox('pox.datapaths.switch'); iow = ctx.pox('pox.lib.ioworker')
+  sw = swm.SoftwareSwitch(dpid=0x42, ports=NPORTS, miss_send_len=128, max_buffers=2, max_entries=cap)
+  w = iow.IOWorker(); w.socket = env.FakeSocket(eof=False)
+  conn = swm.OFConnection(w); sw.set_connection(conn)
+  xs = [ctx.int('xid%d' % i, 0, 0xffffffff) for i in range(cap + 5)]
+  def fm(k, xid, act):
+    m = of.ofp_flow_mod(command=0, priority=100 + k, actions=[of.ofp_action_output(port=act)]); m.match.in_port = 1 + k; m.xid = xid
+    return m
+  stream = []; expect = []; i = 0
+  for k in range(cap): stream.append(fm(k, xs[i], 1)); i += 1                              # fill the table: silent
+  stream.append(fm(0, xs[i], 2)); i += 1                                                   # replace entry 0 (identical match and priority): silent
+  b = of.ofp_barrier_request(); b.xid = xs[i]; stream.append(b); expect.append((of.ofp_barrier_reply, xs[i], None)); i += 1
+  stream.append(fm(cap, xs[i], 1)); expect.append((of.ofp_error, xs[i], lambda m: ctx.And(m.type == 3, m.code == 0))); i += 1     # one too many
+  st = of.ofp_stats_request(body=of.ofp_flow_stats_request()); st.xid = xs[i]; stream.append(st)
+  def chk(m):
+    acts = sorted((e.priority, e.actions[0].port) for e in m.body)
+    return m.type == 1 and acts == sorted([(100, 2)] + [(100 + k, 1) for k in range(1, cap)])
+  expect.append((of.ofp_stats_reply, xs[i], chk)); i += 1
+  b = of.ofp_barrier_request(); b.xid = xs[i]; stream.append(b); expect.append((of.ofp_barrier_reply, xs[i], None))
+  hello = of.ofp_hello(); w._push_receive_data(hello.pack())
+  w.send_buf = b''                                                                        # (the switch's own hello)
+  for m in stream: w._push_receive_data(m.pack())
+  ctx.check('connection stays open', not w.closed and not w._shutdown_send)
+  out = w.send_buf; msgs = []; off = 0; guard = 0
+  unpackers = swm.make_type_to_unpacker_table()
+  while off < len(out) and guard < 12:
+    guard += 1
+    ln = int((out[off + 2] << 8) | out[off + 3])
+    o2, m = unpackers[int(out[off + 1])](out[off:off + ln], 0)
+    msgs.append(m); off += ln
+  ctx.check('number of messages written == replies required', len(msgs) == len(expect))
+  for m, (cls, xid, fn) in zip(msgs, expect):
+    ctx.check('reply kind in request order', isinstance(m, cls))
+    if not isinstance(m, cls): continue
+    ctx.check('reply carries the request xid', m.xid == xid)
+    if fn is not None: ctx.check('reply content', fn(m))
+  ctx.witness('done')
+
+
 def obligations(tier):
   thorough = tier != 'quick'
   ps = plans(thorough)
   BOUNDS[tier] = dict(requests_per_sequence='3 (thorough: also 4)', sequences=len(ps), kinds=KINDS,
                       symbolic="xids (aliasing allowed), port numbers, queue ids, table ids, stats type, vendor id, flow_mod command, buffer id, config values")
-  return [Obligation('O1_sequences', h_seq, [dict(plan=p) for p in ps], witnesses=('done',), max_decisions=20000,
+  return [Obligation('O2_full_table', h_full_table, [dict(cap=c) for c in (1, 2)], witnesses=('done',), max_decisions=20000,
+                     desc='flow table at capacity: replacing ADD is silent, an ADD too many gets ALL_TABLES_FULL, barrier and statistics replies reflect it'),
+          Obligation('O1_sequences', h_seq, [dict(plan=p) for p in ps], witnesses=('done',), max_decisions=20000,
                      desc='request sequences through the byte-level connection: one reply/error per request, in order, with xid and specified content')]
